@@ -170,9 +170,9 @@ def build_case(rng, cid):
     for _ in range(rng.randrange(8)):
         ops.append(["add_front", rng.randrange(2)] + C.rand_front_args(rng)[:-1] + [rng.randrange(324)])
     for _ in range(rng.randrange(6)):
-        ops.append(["add_cert", rng.randrange(3), rng.randrange(len(F["cert"])), rng.randrange(8)] + rng.choice([[], [], [10], [10, 11]]))
+        ops.append(["add_cert", rng.randrange(3), rng.randrange(len(F["cert"])), rng.randrange(24)] + rng.choice([[], [], [10], [10, 11]]))
     for _ in range(rng.randrange(3)):
-        ops.append(["replace_cert", rng.randrange(3), rng.randrange(len(F["cert"])), rng.randrange(8), rng.choice([1, 2, 3, 7, 8, 9])] + rng.choice([[], [], [11]]))
+        ops.append(["replace_cert", rng.randrange(3), rng.randrange(len(F["cert"])), rng.randrange(24), rng.choice([1, 2, 3, 7, 8, 9])] + rng.choice([[], [], [11]]))
     for op in C.history(rng, rng.choice([0, 3, 8])):
         ops.append(op)
     ops += [["dump"], ["replay"]]
